@@ -1393,6 +1393,15 @@ impl<T: Transport + 'static> SyncEngine<T> {
         // Collect all results
         let results = futures::future::join_all(handles).await;
 
+        // A name whose transfer failed in this run is left out: it may still hold the old version,
+        // which size and time stamp cannot tell from the new one (--checksum, --ignore-times), and
+        // the names that were updated must not be moved onto it
+        {
+            let stats = stats.lock().unwrap();
+            for names in link_groups.values_mut() {
+                names.retain(|name| !stats.errors.iter().any(|e| &e.path == name));
+            }
+        }
         relink_hard_link_groups(&link_groups);
 
         // End transfer timing
